@@ -234,15 +234,14 @@ inductive Interleave : List Step → List Step → List (Bool × Step) → Prop
   | left {x xs ys zs} : Interleave xs ys zs → Interleave (x :: xs) ys ((true, x) :: zs)
   | right {y xs ys zs} : Interleave xs ys zs → Interleave xs (y :: ys) ((false, y) :: zs)
 
-/-- the interleaving chosen by a schedule (`true` = writer 1 moves); when the schedule is exhausted or names a writer
-that has finished, the other one runs -/
+/-- the interleaving chosen by a schedule (`true` = writer 1 moves); an entry naming a writer that has finished is
+skipped; when the schedule is exhausted writer 1 runs to its end, then writer 2 -/
 def merge : List Bool → List Step → List Step → List (Bool × Step)
-  | _, [], ys => ys.map fun y => (false, y)
-  | _, xs, [] => xs.map fun x => (true, x)
-  | [], x :: xs, ys => (true, x) :: merge [] xs ys
+  | [], xs, ys => xs.map (fun x => (true, x)) ++ ys.map (fun y => (false, y))
   | true :: sch, x :: xs, ys => (true, x) :: merge sch xs ys
+  | true :: sch, [], ys => merge sch [] ys
   | false :: sch, xs, y :: ys => (false, y) :: merge sch xs ys
-termination_by _ xs ys => xs.length + ys.length
+  | false :: sch, xs, [] => merge sch xs []
 
 /-! ### the temporary name -/
 
